@@ -86,6 +86,8 @@ AtEnd == LastEv.ev = "End"
 E == LastEv
 
 Mon ==
+  /\ Chk(~(LastEv.ev = "Recv" /\ LastEv.class = "change" /\ LastEv.foreign), "C07",
+         "changing request addresses an object without the Netspoc prefix: " \o (IF LastEv.ev = "Recv" THEN LastEv.line ELSE ""), "")
   /\ Chk(AtEnd => C06(P, chg + sav, E.saved, E.rc, E.diag), "C06", "wrong, unmanaged or passive device was changed or no diagnostic",
          IF KF_LinuxMarker THEN "LinuxMarkerIgnored" ELSE "")
   /\ Chk(AtEnd /\ P.verb = "approve" /\ ~Bad(P) /\ ~fseen => E.rc = 0 /\ (P.n > 0 => chg > 0),
